@@ -1811,7 +1811,7 @@ func (f *frame) exprMulti(e ast.Expr) ([]Value, error) {
 			return []Value{str[lo:hi]}, nil
 		}
 		sl, ok := xv.(*Slice)
-		if !ok || e.Slice3 {
+		if !ok {
 			return nil, unsup(e.Pos(), "slice expression on %T", xv)
 		}
 		n := 0
@@ -1833,12 +1833,30 @@ func (f *frame) exprMulti(e ast.Expr) ([]Value, error) {
 			}
 			hi = int(v.(int64))
 		}
-		if lo < 0 || hi > n || lo > hi {
-			return nil, panicf(e.Pos(), "slice bounds out of range [%d:%d] with length %d", lo, hi, n)
+		hcap := 0
+		if sl != nil {
+			hcap = cap(*sl.Elems)
+		}
+		if e.High == nil {
+			hi = n
+		}
+		if lo < 0 || hi > hcap || lo > hi {
+			return nil, panicf(e.Pos(), "slice bounds out of range [%d:%d] with capacity %d", lo, hi, hcap)
+		}
+		max := hcap
+		if e.Slice3 && e.Max != nil {
+			v, err := f.expr(e.Max)
+			if err != nil {
+				return nil, err
+			}
+			max = int(v.(int64))
+			if max < hi || max > hcap {
+				return nil, panicf(e.Pos(), "slice bounds out of range [::%d] with capacity %d", max, hcap)
+			}
 		}
 		var part []Value
 		if sl != nil {
-			part = (*sl.Elems)[lo:hi]
+			part = (*sl.Elems)[lo:hi:max]
 		}
 		return []Value{&Slice{Elems: &part}}, nil
 	case *ast.CallExpr:
@@ -2311,6 +2329,21 @@ func (f *frame) call(e *ast.CallExpr) ([]Value, error) {
 				return []Value{int64(0)}, nil
 			}
 			return nil, unsup(e.Pos(), "len of %T", v)
+		case "cap":
+			v, err := f.expr(e.Args[0])
+			if err != nil {
+				return nil, err
+			}
+			if s, ok := v.(*Slice); ok {
+				if s == nil {
+					return []Value{int64(0)}, nil
+				}
+				return []Value{int64(cap(*s.Elems))}, nil
+			}
+			if v == nil {
+				return []Value{int64(0)}, nil
+			}
+			return nil, unsup(e.Pos(), "cap of %T", v)
 		case "copy":
 			if err := evalArgs(); err != nil {
 				return nil, err
@@ -2350,13 +2383,24 @@ func (f *frame) call(e *ast.CallExpr) ([]Value, error) {
 					}
 					n, _ = v.(int64)
 				}
+				capacity := n
+				if len(e.Args) > 2 {
+					v, err := f.expr(e.Args[2])
+					if err != nil {
+						return nil, err
+					}
+					capacity, _ = v.(int64)
+					if capacity < n {
+						return nil, panicf(e.Pos(), "make([]T, %d, %d): cap out of range", n, capacity)
+					}
+				}
 				if n < 0 {
 					return nil, panicf(e.Pos(), "make([]T, %d): negative length", n)
 				}
-				if n > 1000 {
-					return nil, unsup(e.Pos(), "make([]T, %d): huge length", n)
+				if n > 1000 || capacity > 100000 {
+					return nil, unsup(e.Pos(), "make([]T, %d, %d): huge length", n, capacity)
 				}
-				elems := make([]Value, n)
+				elems := make([]Value, n, capacity)
 				for i := range elems {
 					z, err := zeroOf(mt.Elem())
 					if err != nil {
@@ -2456,9 +2500,12 @@ func (f *frame) call(e *ast.CallExpr) ([]Value, error) {
 			if err := evalArgs(); err != nil {
 				return nil, err
 			}
+			// Go's own semantics, by the host's append on the shared backing array: when the capacity allows, the new
+			// elements are written in place and are visible through every slice that shares the array (growth of the
+			// capacity follows the host runtime, which is the runtime of the analysed program)
 			var elems []Value
 			if s, ok := args[0].(*Slice); ok && s != nil {
-				elems = append(elems, *s.Elems...)
+				elems = *s.Elems
 			}
 			if e.Ellipsis.IsValid() {
 				if len(args) != 2 {
